@@ -22,8 +22,9 @@ PROBES = ['state_compressed_gt57', 'cookie_b64_gt76', 'token_compressed_gt57',
           'cookie_loss', 'expand_all', 'collapse_all', 'nonascii_id',
           'astral_id', 'int_id', 'same_id_in_two_subtrees', 'stale_undefined',
           'assume_children_leaf_expanded', 'codec_case', 'depth_ge_4',
-          'two_expanded_siblings']
-RULE = ('seeded trees (1..40 nodes, depth <= 6, ids of 1..30 chars over '
+          'two_expanded_siblings', 'state_json_gt32k']
+RULE = ('seeded trees (1..40 nodes, about one in a hundred with 400-600 nodes '
+        'and 30-character non-ASCII ids; sometimes ids that collide when joined with "/"; depth <= 6, ids of 1..30 chars over '
         'ASCII / Latin-1 / BMP / astral alphabets or ints, ids unique among '
         'siblings only) x tag options x histories of 1..40 browser actions '
         '(click i-th link, expand_all, collapse_all, reload; faults: resend, '
@@ -70,6 +71,13 @@ class Node:
     kids_m = tpValues
 
 
+class NodeOtherId(Node):
+    """for trees rendered with id=\"myid\": tpId exists but is NOT the id"""
+
+    def tpId(self):
+        return 'not-the-id'
+
+
 class Response:
     def __init__(self):
         self.cookies = {}
@@ -78,21 +86,22 @@ class Response:
         self.cookies[name] = value
 
 
-def gen_id(r, used):
+def gen_id(r, used, long=False):
     while True:
         how = r.random()
-        if how < 0.12:
+        if how < 0.12 and not long:
             tid = r.randint(0, 3000)
         else:
-            al = ALPH[r.choice(['ascii', 'ascii', 'latin1', 'bmp', 'astral'])]
-            n = r.choice([1, 1, 2, 3, 5, 8, 13, 21, 30])
+            al = ALPH[r.choice(['bmp', 'astral'] if long else
+                               ['ascii', 'ascii', 'latin1', 'bmp', 'astral'])]
+            n = 30 if long else r.choice([1, 1, 2, 3, 5, 8, 13, 21, 30])
             tid = ''.join(r.choice(al) for _ in range(n))
         if tid not in used and str(tid) not in map(str, used):
             used.add(tid)
             return tid
 
 
-def gen_tree(r, nmax, dmax):
+def gen_tree(r, nmax, dmax, huge=False):
     counter = [0]
     pool = [gen_id(r, set()) for _ in range(3)]   # ids reused across subtrees
 
@@ -104,6 +113,8 @@ def gen_tree(r, nmax, dmax):
         if depth < dmax:
             nk = r.choice([0, 0, 1, 2, 2, 3, 4]) if depth else \
                 r.choice([1, 2, 3, 4, 5])
+            if huge:
+                nk = r.choice([2, 2, 3])
             for _ in range(nk):
                 if counter[0] >= nmax:
                     break
@@ -113,11 +124,30 @@ def gen_tree(r, nmax, dmax):
                     k[1] = cand
                     used.add(cand)
                 else:
-                    k[1] = gen_id(r, used)
+                    k[1] = gen_id(r, used, huge)
                 kids.append(k)
         return [idx, None, kids]
     root = mk(0)
     root[1] = gen_id(r, set())
+    if r.random() < 0.12:
+        # two different paths that read the same when joined with '/':
+        # a node 'a' with a child 'b', and a sibling of 'a' called 'a/b'
+        def walk(n):
+            yield n
+            for k_ in n[2]:
+                yield from walk(k_)
+        cands = [n for n in walk(root) if len(n[2]) >= 2 and any(
+            k_[2] and k_[2][0][2] for k_ in n[2])]
+        if cands:
+            par = r.choice(cands)
+            a = r.choice([k_ for k_ in par[2] if k_[2] and k_[2][0][2]])
+            sib = r.choice([k_ for k_ in par[2] if k_ is not a])
+            new = '%s/%s' % (a[1], a[2][0][1])
+            if new not in [str(k_[1]) for k_ in par[2]]:
+                sib[1] = new
+                if not sib[2]:
+                    counter[0] += 1
+                    sib[2].append(['n%d' % counter[0], 'leaf', []])
     return root
 
 
@@ -137,7 +167,12 @@ def gen_case(seed, tier):
         return {'kind': 'codec', 'state': [[gen_id(r, set()), st(0)]]}
     nmax = r.choice([1, 3, 7, 7, 12, 20, 40])
     dmax = r.choice([1, 2, 3, 4, 4, 6])
-    tree = gen_tree(r, nmax, dmax)
+    # now and then a really big state: hundreds of open nodes with long
+    # non-ASCII ids (tens of kilobytes of state before compression)
+    huge = r.random() < 0.012
+    if huge:
+        nmax, dmax = r.choice([400, 600]), r.choice([8, 10])
+    tree = gen_tree(r, nmax, dmax, huge)
     opts = {}
     if r.random() < 0.15:
         opts['branches'] = 'kids_m'
@@ -181,12 +216,14 @@ def gen_case(seed, tier):
             elif y < 0.30:
                 op['loss'] = True
         hist.append(op)
+    if huge:
+        hist = [{'op': 'expand_all'}, {'op': 'reload'}] + hist[:3]
     return {'kind': 'sim', 'tree': tree, 'opts': opts, 'history': hist}
 
 
-def build(tree):
+def build(tree, cls=Node):
     idx, tid, kids = tree
-    return Node(idx, tid, [build(k) for k in kids])
+    return cls(idx, tid, [build(k, cls) for k in kids])
 
 
 def template_src(opts):
@@ -333,7 +370,8 @@ def run_case(case):
 
     from DocumentTemplate import HTML
     import json
-    root = build(case['tree'])
+    root = build(case['tree'], NodeOtherId if case['opts'].get('id')
+                 else Node)
     opts = case['opts']
     byidx = {}
 
@@ -408,6 +446,8 @@ def run_case(case):
         if compressed_len(st) > 57:
             probe('state_compressed_gt57')
             nontrivial.append(1)
+        if len(json.dumps(st)) > 32768:
+            probe('state_json_gt32k')
         if len(cookie) > 76:
             probe('cookie_b64_gt76')
         if TreeTag.decode_seq(re_enc) != st:
